@@ -395,7 +395,7 @@ def run(ctx: Any, prog: Program) -> None:
         want = f"({filt_name}['pb']*5+{filt_name}['lp'])*9+{filt_name}['lc']"
         ctx.check('C10.B10', psrc == want, bf_, pdef if pdef is not None else packs_[0], f'props byte is `{psrc}`; the decoder splits it as lc = p % 9, lp = (p // 9) % 5, pb = (p // 9) // 5, i.e. it must be `{want}`', func='compress_lzma', text='header props formula')
         dsrc = ast.unparse(dz).replace(' ', '')
-        ctx.check('C10.B10', 'lc=props%9' in dsrc and 'props//=9' in dsrc and 'pb=props//5' in dsrc and 'lp=props%5' in dsrc, bf_, dz, 'decompress_lzma splits props as lc = p % 9; p //= 9; pb = p // 5; lp = p % 5', func='decompress_lzma', text='props split')
+        ctx.shape('C10.B10', ('lc=props%9' in dsrc and 'props//=9' in dsrc and 'pb=props//5' in dsrc and 'lp=props%5' in dsrc) or ('props,lc=divmod(props,9)' in dsrc and 'pb,lp=divmod(props,5)' in dsrc), bf_, dz, 'decompress_lzma splits props as lc = p % 9; p //= 9; pb = p // 5; lp = p % 5', func='decompress_lzma', text='props split')
         sizes = (ast.unparse(hdr.get('uncomp_size')) if hdr.get('uncomp_size') is not None else '', ast.unparse(hdr.get('comp_size')) if hdr.get('comp_size') is not None else '')
         ctx.check('C10.B10', sizes[0] == f'len({cz.args.args[0].arg})' and sizes[1].startswith('len('), bf_, packs_[0], f'header sizes are {sizes}: uncompressed length of the input, then length of the encoded stream', func='compress_lzma', text='header sizes')
     # ---- B6 --------------------------------------------------------------------------------------------
